@@ -7,7 +7,7 @@ Require Import BB.Base.Str BB.Base.Xml BB.Base.Dict BB.Model.PegSyntax BB.Model.
 Require Import BB.Gen.Grammar BB.Gen.TablesTypes BB.Gen.TablesXsl BB.Gen.TablesReadme.
 Require Import BB.Proofs.Tables BB.Proofs.KeywordElement BB.Proofs.HierShape.
 Require Import BB.Model.Eid BB.Model.EidSpec BB.Model.PreParse BB.Model.Convert BB.Gen.TablesParser BB.Gen.TablesLibs BB.Proofs.EscapeLossless.
-Require Import BB.Proofs.PegEscape BB.Proofs.PegPlain BB.Proofs.PegLine BB.Proofs.LineRule BB.Proofs.PlainLine BB.Proofs.PlainLineConvert BB.Proofs.HierElement BB.Proofs.HierElementConvert BB.Proofs.HierChain.
+Require Import BB.Proofs.PegEscape BB.Proofs.PegPlain BB.Proofs.PegLine BB.Proofs.LineRule BB.Proofs.PlainLine BB.Proofs.PlainLineConvert BB.Proofs.HierElement BB.Proofs.HierElementConvert BB.Proofs.HierChain BB.Proofs.PreParseStair BB.Proofs.HierChainConvert.
 
 (* README.md against akn.peg and types.py (all three regenerated from /repo on every run) *)
 Theorem C04_readme_keywords_in_grammar : subset readme_line_keywords (keywords akn_peg) = true.
@@ -174,6 +174,23 @@ Theorem C04_hier_chain_yields_nested_nodes : forall kw n hs c' ls pre f f',
     /\ dn_spec ((kw, n, hs) :: c') ls d.
 Proof. exact hier_chain_yields_nested_nodes. Qed.
 Print Assumptions C04_hier_chain_yields_nested_nodes.
+
+(* ... and through the WHOLE pipeline model, to ANY depth and with ANY indentation widths: a first line `KEYWORD num - heading`, then any
+   number of further such lines, each indented deeper than the one before, then a plain line indented deeper still, converts - for
+   every known FRBR URI and every eId prefix - to the elements nested in the same way ([nest true]): each level the keyword's element
+   with <num> and <heading>, the innermost holding <content><p>line</p></content>, every eId the parent's eId + "__" + abbreviation +
+   "_" + cleaned number, the paragraph's "...__p_1".  pre_parse of the staircase, the grammar by induction over the depth, to_dict,
+   the XML builder, text merging, and post-processing - which on such a tree is eId generation and nothing else
+   (Proofs/HierChainConvert.v, with PreParseStair.v, HierChain.v and PostQuiet.v). *)
+Theorem C04_hier_chain_converts : forall uri prefix l0 (lv : list (nat * plevel)) kt t root_meta att_meta,
+  assoc_str uri meta_templates = Some (root_meta, att_meta) ->
+  Forall plevel_full (l0 :: map snd lv) ->
+  growing 0 (map (fun kl => (fst kl, header (snd kl))) lv ++ [(kt, t)]) ->
+  plain_text t -> none_starts block_lits t = true -> p_safe t = true -> starts_with SUBH t = false -> no_ctl_start t = true ->
+  convert uri (of_string "hier_element") prefix (stair_text ((0%nat, header l0) :: rows_of lv kt t))
+  = OkR (nest true prefix (l0 :: map snd lv) t).
+Proof. exact hier_chain_converts. Qed.
+Print Assumptions C04_hier_chain_converts.
 
 (* the model on a nest of three, through the whole pipeline (an evaluation, for orientation) *)
 Example C04_nest_of_three :
